@@ -1,5 +1,5 @@
 (* C07 -- Snapshot variable table is closed and de-duplicated by object identity. *)
-From Deep Require Import Base Config Collector CollectorProofs PureSupport TieTraverse.
+From Deep Require Import Base Config Collector CollectorProofs PureSupport TieTraverse TieRoot.
 From DeepGen Require Import PCollect.
 
 (* one object, one id: the id cache of a whole snapshot never holds an object twice, and two
@@ -91,3 +91,20 @@ Theorem C07_the_code_records_a_new_object_once :
   k_table k' = k_table k ++ [(S (length (k_cache k)), record_var c h (n_oid n))] /\ k_roots k' = k_roots k.
 Proof. exact code_process_new. Qed.
 Print Assumptions C07_the_code_records_a_new_object_once.
+
+(* ---- tie by translation: VariableSetProcessor.process_variable (one root) as it is in /repo/src NOW, over the translated
+   traversal: it is the model's collect_root - cache, table and the id handed back - for every heap, cache, table and fuel *)
+Theorem C07_the_code_collects_a_root_as_the_model :
+  forall c h fuel a tbl name o,
+  code_collect_root c h fuel (a_cache a) tbl name o =
+  let '(a', t', r) := collect_root (S fuel) true c h a tbl name o in ((a_cache a', t'), (r, otext (hget h o))).
+Proof. exact tie_collect_root. Qed.
+Print Assumptions C07_the_code_collects_a_root_as_the_model.
+
+(* a root that is already recorded - a watch on a value of the frame, one value under two names - answers ITS id; no second
+   entry, no second id *)
+Theorem C07_the_code_known_root_answers_its_id :
+  forall c h fuel cs tbl name o v, lookup_cache cs o = Some v ->
+  code_collect_root c h fuel cs tbl name o = ((cs, tbl), (Some v, otext (hget h o))).
+Proof. exact code_collect_root_known. Qed.
+Print Assumptions C07_the_code_known_root_answers_its_id.
